@@ -32,6 +32,15 @@ func rangesCases(prop, tier string, r *rng) {
 	emitRanges([]string{"add:10", "add:11", "add:20", "head", "first", "get:20", "add:21", "add:30", "remove:20", "first", "get:20", "remove:20", "first", "get:20", "dump", "head"})
 	emitRanges([]string{"add:10", "add:12", "add:14", "prune:11", "dump", "prune:12", "dump", "prune:13", "head", "add:5", "dump", "first", "dump"})
 	emitRanges([]string{"first", "get:3", "remove:3", "head", "prune:7", "dump"})
+	{
+		// a long burst of heads while nothing is taken out (a stalled sync): every one of them is cached
+		var ops []string
+		for h := 11; h <= 320; h++ {
+			ops = append(ops, op("add", h))
+		}
+		ops = append(ops, "head", "first", op("get", 320), op("remove", 300), "head", "dump")
+		emitRanges(ops)
+	}
 	n := 150
 	if tier == "thorough" {
 		n = 4000
